@@ -19,16 +19,26 @@ def gen_cases(rng, tier):
     cases = []
     for _ in range(14 if tier == 'quick' else 100):
         norb = rng.randint(2, 3)
-        mode = rng.choice(['ns', 'ns', 'sb'])
+        mode = rng.choice(['ns', 'ns', 'sb', 'nb'])
         if mode == 'ns':
             na, nb = rng.randint(0, norb), rng.randint(0, norb)
             nn, sz = na + nb, na - nb
+        elif mode == 'nb':
+            nn, sz = 0, rng.randint(-norb + 1, norb - 1)
         else:
             nn, sz = rng.randint(1, 2 * norb - 1), 0
         keys = fqeio.sector_keys(norb, mode, nn, sz)
         wf = [fqeio.random_state(rng, norb, keys, density=0.8, amp=2) for _ in range(NW)]
         hams = []
         for _h in range(NH):
+            if mode == 'nb':
+                # number-broken family: Hermitian FermionOperators with pairing terms (>= 3 terms: dense route through
+                # the particle-hole flipped copy; quadratic ones take the orbital-rotation route in time_evolve)
+                terms = c01.gen_fop_terms(rng, norb, number_breaking=True, nterms=rng.randint(2, 4))
+                if _h == 0:
+                    terms = [t for t in terms if len(t[0]) == 2] or terms
+                hams.append({'cls': 'fop', 'rank': 0, 'entries': terms, 'e0': [0, 0], 'real': False})
+                continue
             cls = rng.choice(['restricted', 'sso', 'diag', 'dc2', 'sparse'] if mode == 'ns' else ['gso', 'diag2', 'sparse'])
             rank = rng.randint(1, 2)
             ham = c01.gen_ham(rng, cls, rank, norb, 'sparse', True, True)
@@ -76,8 +86,19 @@ def _wsnap(w):
     return [(tuple(map(int, k)), w.sector(k).coeff.tobytes()) for k in sorted(w.sectors())]
 
 
+def _mkham(h, norb):
+    """Hamiltonian object of a case entry; FermionOperators of the number-broken family are compiled"""
+    import fqe
+    obj = c01.build_ham(h, norb)
+    if h['cls'] == 'fop':
+        obj = fqe.get_hamiltonian_from_openfermion(obj, norb=norb, conserve_number=False)
+    return obj
+
+
 def _hsnap(h):
     import numpy
+    if not hasattr(h, 'e_0'):
+        return [type(h).__name__, str(h)]
     out = [type(h).__name__, repr(complex(h.e_0()))]
     for name in ('_tensor', '_hdiag', '_operators'):
         if hasattr(h, name):
@@ -168,7 +189,7 @@ def run_impl(case, mode):
         # objects obtained by copying share their FciGraph with the source
         W[1] = copy.deepcopy(W[0])
         fqeio.set_state(W[1], case['wf'][1])
-        H = [c01.build_ham(h, norb) for h in case['hams']]
+        H = [_mkham(h, norb) for h in case['hams']]
         return W, H
 
     if case.get('phase') == 'fresh':
@@ -179,7 +200,7 @@ def run_impl(case, mode):
             W = [fqeio.make_wfn(norb, case['mode'], case['n'], case['sz'], None) for _ in range(NW)]
             for i, st in enumerate(step['wstates']):
                 fqeio.set_state(W[i], st) if st else W[i].set_wfn(strategy='zero')
-            H = [c01.build_ham(h, norb) for h in case['hams']]
+            H = [_mkham(h, norb) for h in case['hams']]
             try:
                 _, _, res = _do(step['op'], W, H, fqe, copy, numpy)
             except Exception as e:  # noqa
@@ -188,6 +209,7 @@ def run_impl(case, mode):
         fqe.settings.use_accelerated_code = start_flag
         return {'results': out}
 
+    fqeio.reset_sources()
     W, H = build()
     modeflags = [bool(W[0]._conserve_spin), bool(W[0]._conserve_number)]
     frame_bad = []
@@ -212,6 +234,7 @@ def run_impl(case, mode):
             steps.append({'op': op, 'wstates': wstates, 'flag': flag, 'res': res, 'wflags': wflags})
     # copies evolve independently of their source
     fqe.settings.use_accelerated_code = start_flag
+    frame_bad += fqeio.modified_sources()
     return {'frame_bad': frame_bad[:5], 'steps': steps, 'modeflags': modeflags}
 
 
